@@ -265,6 +265,7 @@ def types(draw, ctx: Ctx, depth: int, tparams: Sequence[str] = (), qualifiers=Tr
     else:  # templated
         tdecls = [d for d in ctx.decls if d.kind in (('class',) if prof.compilable
                                                      else ('class', 'fwd')) and d.nparams > 0]
+        d = None
         if tdecls and draw(st.booleans()):
             d = draw(st.sampled_from(tdecls))
             ns, name, n = d.path, d.name, d.nparams
@@ -273,6 +274,10 @@ def types(draw, ctx: Ctx, depth: int, tparams: Sequence[str] = (), qualifiers=Tr
         targs = tuple(draw(types(ctx, depth - 1, tparams, qualifiers=qualifiers,
                                  numbers=numbers, this=this, inner=True))
                       for _ in range(n))
+        lists_ = d.lists if d is not None else ()
+        if lists_ and len(lists_) == n and not prof.compilable and draw(st.booleans()):
+            # one of the instantiations the template's own lists name (a class that exists)
+            targs = tuple(draw(st.sampled_from(list(l_))) for l_ in lists_)
     const, ptr = False, ''
     if top_qualifiers and cat != 'number' and name != 'void':
         const = draw(st.booleans()) and draw(st.booleans())
